@@ -24,6 +24,9 @@ type c05Case struct {
 	Seed   uint64      `json:"seed"`
 	Order  string      `json:"order"`  // native / little / big
 	Kernel bool        `json:"kernel"` // also ask the running kernel
+	// Prev: the same Policy value compiled this (different) policy before and was then overwritten field by field
+	// (callers reuse and modify policy values); the program returned now must be the one of Policy.
+	Prev *spec.Policy `json:"prev,omitempty"`
 }
 
 // tuneLength grows or shrinks the policy until the compiled program has a
@@ -156,6 +159,10 @@ func drawC05(t *rapid.T) c05Case {
 	}
 	c := c05Case{Policy: p, Seed: rapid.Uint64().Draw(t, "seed"),
 		Order: []string{"native", "native", "little", "big"}[rapid.IntRange(0, 3).Draw(t, "order")]}
+	if rapid.IntRange(0, 5).Draw(t, "reuseValue") == 0 {
+		prev := gen.Policy(t, p.Arch, gen.Opts{Profile: gen.Small})
+		c.Prev = &prev
+	}
 	every := ev.Scale(12, 6)
 	c.Kernel = rapid.IntRange(0, every-1).Draw(t, "kernel") == 0 || k <= 2
 	return c
@@ -186,7 +193,26 @@ func checkC05(raw json.RawMessage) (ev.Result, error) {
 	if allEmpty {
 		res.Classes = append(res.Classes, "all-groups-empty-attempted")
 	}
-	cp, cerr, pan := compilePolicy(p)
+	var cp *compiled
+	var cerr error
+	var pan any
+	if c.Prev != nil && c.Prev.Arch == p.Arch {
+		res.Classes = append(res.Classes, "value-reused-after-compiling-another-policy")
+		func() {
+			defer func() { pan = recover() }()
+			sp := c.Prev.ToSeccomp()
+			sp.Assemble()
+			np := p.ToSeccomp()
+			sp.DefaultAction, sp.Syscalls = np.DefaultAction, np.Syscalls
+			insts, err := sp.Assemble()
+			cerr = err
+			if err == nil {
+				cp = &compiled{insts: insts}
+			}
+		}()
+	} else {
+		cp, cerr, pan = compilePolicy(p)
+	}
 	if pan != nil {
 		return res, fmt.Errorf("Assemble panicked: %v", pan)
 	}
